@@ -4,10 +4,14 @@
    requires_value, the six validate bodies and `iterable` are the PyLite translations of the current source
    (coq/generated/PyLite_UiUtils.v, PyLite_Validators.v, PyLite_SharedUtils.v, regenerated on every run);
    EnforcerPool / Parameter / Association-, PropertyGroup-, ShapeValidator / InputValidation.validate(_data) are the
-   hand models of Model/Enforcers.v (tied by correspondence). *)
+   hand models of Model/Enforcers.v (tied by correspondence).  Those models carry their state explicitly (the pool's
+   `_errors` list, the parameter's stored value, the rule table `self.validations`); every call takes the state the previous
+   call left and returns the next one, and the statelessness theorems quantify over whole histories threaded that way
+   (and, for the pool, over arbitrary left-over `_errors`).  They are true because the repaired code resets / does not
+   write that state - the `*_old_code_refuted` theorems show the same statements false for the code before the repairs. *)
 From Coq Require Import String.
 From GV Require Import Prelude.Base Model.PyVal Model.UiRules Model.Enforcers
-     Proofs.PyValProofs Proofs.UiRulesProofs Proofs.EnforcersProofs Proofs.ValidatorsProofs.
+     Proofs.PyValProofs Proofs.UiRulesProofs Proofs.EnforcersProofs Proofs.ValidatorsProofs Proofs.OneOfProofs.
 From GVgen Require Import PyLite_SharedUtils PyLite_UiUtils PyLite_Validators.
 Local Open Scope string_scope.
 
@@ -64,7 +68,37 @@ Theorem C15_pool_accept_iff : forall es v,
 Proof. exact pool_accept_iff. Qed.
 Print Assumptions C15_pool_accept_iff.
 
+(* the group rule "at least one": validate_data on a table of one_of rules accepts iff every group has a member whose
+   value is not None (any number of parameters and groups); C15_accept_iff covers the other rules of a parameter *)
+Theorem C15_one_of_accept_iff : forall W o spec data,
+  ignore_list o = [] -> NoDup (map fst spec) -> (forall p g, In (p, g) spec -> dict_has (PStr p) data = true) ->
+  snd (iv_validate_data W o (PDict (one_of_table spec)) (PDict data))
+  = if one_of_ok spec data then Ok PNone else Raise (Validation VAtLeastOne).
+Proof. exact one_of_accept_iff. Qed.
+Print Assumptions C15_one_of_accept_iff.
+
+Example C15_one_of_nonvacuous :
+  let spec := [("a", "g1"); ("b", "g1"); ("c", "g2")] in
+  NoDup (map fst spec)
+  /\ one_of_ok spec [(PStr "a", PNone); (PStr "b", PStr "x"); (PStr "c", PInt 0)] = true
+  /\ one_of_ok spec [(PStr "a", PStr "x"); (PStr "b", PStr "x"); (PStr "c", PNone)] = false
+  /\ snd (iv_validate_data no_world no_opts (PDict (one_of_table spec)) (PDict [(PStr "a", PStr "x"); (PStr "b", PNone); (PStr "c", PNone)]))
+     = Raise (Validation VAtLeastOne).
+Proof.
+  split; [repeat constructor; simpl; intuition discriminate | vm_compute; repeat split; reflexivity].
+Qed.
+
 (* ---- the verdict never depends on earlier validation calls ---- *)
+
+(* whatever the `_errors` list holds when enforce() starts (not only what the model itself could have left there) *)
+Theorem C15_pool_stateless_any_state : forall p v, snd (pool_enforce p v) = snd (pool_enforce (fresh_pool (p_enf p)) v).
+Proof. exact pool_stateless_any_state. Qed.
+Print Assumptions C15_pool_stateless_any_state.
+
+Theorem C15_param_stateless_any_state : forall p v,
+  snd (param_set p v) = snd (param_set {| pm_pool := fresh_pool (p_enf (pm_pool p)); pm_val := PNone |} v).
+Proof. exact param_stateless_any_state. Qed.
+Print Assumptions C15_param_stateless_any_state.
 
 Theorem C15_pool_stateless : PoolStateless pool_enforce.
 Proof. exact pool_stateless. Qed.
